@@ -92,7 +92,13 @@ func (p *postprocessor) worker(workerID string) {
 			return
 		case <-controlChans.PauseCh:
 			logger.Debug("received pause event")
-			controlChans.ResumeCh <- struct{}{}
+			// A stop request must also reach a paused worker
+			select {
+			case <-p.ctx.Done():
+				logger.Debug("shutting down while paused")
+				return
+			case controlChans.ResumeCh <- struct{}{}:
+			}
 			logger.Debug("received resume event")
 		case seed, ok := <-p.inputCh:
 			if ok {
